@@ -36,7 +36,7 @@ ASSUMPTIONS = [
 
 
 def GATES(tier):
-    return [("ops_judged", 500), ("isolation_checked", 300), ("resets_judged", 150), ("nested_direct_mutations", 50)] + [
+    return [("ops_judged", 500), ("isolation_checked", 300), ("resets_judged", 150), ("nested_direct_mutations", 50), ("constructed_with_UNCHANGED", 20)] + [
         (f"default_style:{s}", 5) for s in ("lit", "attr", "factory", "field", "field_factory", "none", "plain_override", "spec_redefault", "spec_redeclare")
     ]
 
@@ -123,6 +123,11 @@ def run(ctx, params):
                 r = rng.random()
                 if len(insts) < 2 or r < 0.15:
                     op = dr.gen_construct(world, rng)
+                    with_default = [n for n, (_o, a) in world.decl.attrs_of(op["cls"]).items() if world.decl.default_of(op["cls"], n) is not None and n not in op["kwargs"] and a.init]
+                    if with_default and rng.random() < 0.2:
+                        # "leave it as it is": the instance still gets a default of its own
+                        op["kwargs"][rng.choice(with_default)] = ["sentinel", "UNCHANGED"]
+                        ctx.count("constructed_with_UNCHANGED")
                     st = dr.execute(world, insts, op, scopes=("all", "classes") if len(insts) >= 2 else (), extra_roots=dict(ctor_objs), saturate=True)
                     if st.outcome == "returned":
                         for k, v in list(st.kwargs.items()):
